@@ -16,8 +16,9 @@
 //!                             (mask: four characters, '1' = element is compared),
 //!          "observed": path|null       stdout of kp,
 //!          "expected_out": path|null   where to write what the library computes,
-//!          "compare": "numbers" | "count" | "none", "slack": 0.5}
+//!          "compare": "numbers" | "prefix" (stdout may stop early) | "count" | "none", "slack": 0.5}
 //! result: {"id":.., "op_ok":bool, "n_expected":n, "n_observed":n, "count_ok":bool,
+//!          "successes": what the library's apply returned for the first direction,
 //!          "n_mismatch":n, "mismatches":[first five], "evaluations":n}
 //!
 //! Token comparison: the text must be the value with exactly d decimals; a
@@ -140,8 +141,9 @@ fn run_job(job: &Value) -> Value {
         _ => (Inv, Some(Fwd)),
     };
     let roundtrip = second.is_some();
+    let mut successes = 0usize;
     let r = guarded(|| -> Result<(), String> {
-        ctx.apply(op, first, &mut data).map_err(|e| format!("{e:?}"))?;
+        successes = ctx.apply(op, first, &mut data).map_err(|e| format!("{e:?}"))?;
         if let Some(dir) = second {
             ctx.apply(op, dir, &mut data).map_err(|e| format!("{e:?}"))?;
             for (o, i) in data.iter_mut().zip(input.iter()) {
@@ -177,7 +179,7 @@ fn run_job(job: &Value) -> Value {
     }
 
     let Some(obs_path) = job["observed"].as_str() else {
-        return json!({"id": id, "op_ok": true, "n_expected": n, "evaluations": evaluations});
+        return json!({"id": id, "op_ok": true, "n_expected": n, "successes": successes, "evaluations": evaluations});
     };
     let observed = match std::fs::read(obs_path) {
         Ok(b) => String::from_utf8_lossy(&b).into_owned(),
@@ -190,7 +192,7 @@ fn run_job(job: &Value) -> Value {
     let n_obs = lines.len();
     let mut mism: Vec<Value> = vec![];
     let mut n_mism = 0usize;
-    if compare == "numbers" {
+    if compare == "numbers" || compare == "prefix" {
         let (d, dim) = (d.unwrap_or(0), dim.unwrap_or(4).min(4));
         for (k, line) in lines.iter().enumerate().take(n) {
             let toks: Vec<&str> = line.split_ascii_whitespace().collect();
@@ -216,7 +218,9 @@ fn run_job(job: &Value) -> Value {
             }
         }
     }
-    json!({"id": id, "op_ok": true, "n_expected": n, "n_observed": n_obs, "count_ok": n == n_obs,
+    // "prefix": the run was allowed to stop early; what it wrote must be the first lines of the prediction
+    let count_ok = if compare == "prefix" { n_obs <= n } else { n == n_obs };
+    json!({"id": id, "op_ok": true, "n_expected": n, "n_observed": n_obs, "count_ok": count_ok, "successes": successes,
            "n_mismatch": n_mism, "mismatches": mism, "evaluations": evaluations})
 }
 
